@@ -50,12 +50,12 @@ struct World {
     QXmppDiscoveryManagerPrivate *priv;
     Txt capNode;
     QXmppDiscoveryIq caps;
-    World()
+    explicit World(const Txt &node) : capNode(node)
     {
         // the manager is raw storage: handleIq()/clientCapabilitiesNode() only touch the private block (and capabilities())
         priv = new QXmppDiscoveryManagerPrivate;
         new (const_cast<std::unique_ptr<QXmppDiscoveryManagerPrivate> *>(&mgr->d)) std::unique_ptr<QXmppDiscoveryManagerPrivate>(priv);
-        capNode = symTxt(); priv->clientCapabilitiesNode = qstr(capNode);
+        priv->clientCapabilitiesNode = qstr(capNode);
         // arbitrary info set: nid (<= 1) identities, nf (<= 2) features
         caps.setType(QXmppIq::Result);
         caps.setQueryType(QXmppDiscoveryIq::InfoQuery);
@@ -73,7 +73,7 @@ struct World {
         g_caps = &caps;
     }
 };
-static bool txtStartsWith(const Txt &s, const Txt &prefix)
+[[maybe_unused]] static bool txtStartsWith(const Txt &s, const Txt &prefix)
 {
     if (prefix.len > s.len) return false;
     for (unsigned k = 0; k < MAXLEN; k++) if (k < prefix.len && s.c[k] != prefix.c[k]) return false;
@@ -82,14 +82,23 @@ static bool txtStartsWith(const Txt &s, const Txt &prefix)
 
 // handleIq(info query): for the own node (empty, or starting with the capabilities node) the answer is capabilities() with only
 // the query node changed - in particular it hashes to the same verification string; other nodes get item-not-found
+// The node texts are concrete per instance (scenario), so that the accept/refuse decision of handleIq is a single path; the
+// info set returned by capabilities() is symbolic.
+static void scenario(Txt &capNode, Txt &node, bool &addressed)
+{
+    unsigned sc = symCount(2, 3);
+    if (sc == 0) { capNode = litTxt("ab"); node = litTxt(""); addressed = true; }          // query without node
+    else if (sc == 1) { capNode = litTxt("ab"); node = litTxt("abB"); addressed = true; }  // node#ver form: starts with the caps node
+    else if (sc == 2) { capNode = litTxt(""); node = litTxt("b"); addressed = true; }      // empty caps node: every node is the own one
+    else { capNode = litTxt("ab"); node = litTxt("ba"); addressed = false; }               // foreign node
+}
 extern "C" void h_handle_info()
 {
-    World w;
-    Txt node = symTxt();
+    Txt capNode, node; bool addressed; scenario(capNode, node, addressed);
+    World w(capNode);
     QXmppDiscoveryIq req;
     req.setQueryType(QXmppDiscoveryIq::InfoQuery);
     req.setQueryNode(qstr(node));
-    bool addressed = node.len == 0 || txtStartsWith(node, w.capNode);
 
     auto res = w.mgr->handleIq(std::move(req));
 
@@ -116,7 +125,7 @@ extern "C" void h_handle_info()
 // the disco#info answer (previous harness)
 extern "C" void h_presence_caps()
 {
-    World w;
+    World w(symTxt());
     // client: raw storage; QXmppClient::extensions() is modelled (returns the discovery manager only), so only `q` matters
     VpRaw<QXmppClient> client; VpRaw<QXmppClientPrivate> cp;
     cp->q = client.p();
